@@ -323,6 +323,73 @@ theorem C03_readat_bounds (se : Seg) (plen off : Nat) :
   simp
   omega
 
+/-- **File.Read delivers only bytes of verified blocks, at the positions the manifest names.**
+Over a verified block store (`blocks i` is what the cache returns for block i, without error) and
+segments that lie inside their blocks, whatever filenode.Read returns for any pointer and any
+buffer size is either nothing or a piece `drop o |> take plen` of one segment of the file, i.e. of
+bytes `[offset, offset+length)` of that segment's block. -/
+theorem C03_file_read_sound (blocks : Nat → Bytes) (segs : List Seg)
+    (hin : ∀ s ∈ segs, s.offset + s.length ≤ (blocks s.blk).length)
+    (p : Ptr) (plen : Nat) (d : Bytes) (e : Option Err) (p' : Ptr)
+    (h : fileRead (fun s pl off => segReadAt (fun l o => readAtEntry { data := blocks s.blk, err := none } o l) s pl off)
+          segs p plen = some (d, e, p')) :
+    d = [] ∨ ∃ s ∈ segs, ∃ o, o ≤ s.length ∧
+      d = ((((blocks s.blk).drop s.offset).take s.length).drop o).take plen := by
+  unfold fileRead at h
+  split at h
+  · simp at h
+  · rename_i p1 _
+    split at h
+    · simp at h; left; exact h.1
+    · rename_i s hs
+      have hmem : s ∈ segs := List.mem_of_getElem? hs
+      have hd : d = (segReadAt (fun l o => readAtEntry { data := blocks s.blk, err := none } o l) s plen p1.segOff).1 := by
+        dsimp only at h
+        split at h
+        · simp at h; exact h.1.symm
+        · split at h <;> (simp at h; exact h.1.symm)
+      by_cases hoff : p1.segOff ≤ s.length
+      · right
+        refine ⟨s, hmem, p1.segOff, hoff, ?_⟩
+        rw [hd, segReadAt_verified (blocks s.blk) s plen p1.segOff hoff (hin s hmem)]
+      · left
+        rw [hd]
+        unfold segReadAt
+        have : s.length < p1.segOff := by omega
+        simp [this]
+
+/-! ## The consistency hypothesis is needed (notes O2, O3)
+
+`C03_cache_exact` and `C03_bad_never_cached_exact` assume that every locator's size hint is the size
+of the content with its MD5 — which is what the property quantifies over ("block contents/sizes").
+The two theorems below show that this hypothesis cannot be dropped for the current code: with
+collision-freeness alone, a locator whose hint is smaller than the content, answered without
+Content-Length by the complete, correctly hashing body, stores and serves a truncated block, and —
+the cache being keyed by the hash only — that entry is what any other reader of the same hash gets. -/
+
+def hypBlock : Bytes := [1, 2, 3]
+def hypLoc : List Char := "0123456789abcdef0123456789abcdef+2".toList
+def hypG : G := { scripts := [[.ok none { chunks := [[1, 2, 3]] }]] }
+
+theorem C03_hint_hypothesis_needed :
+    NoColl (fun x : Bytes => x) hypBlock hypBlock ∧
+    hint64 hypLoc = some 2 ∧ hypBlock.length = 3 ∧
+    (fetch (fun x : Bytes => x) (fun _ => hypBlock) hypLoc 1 [0] hypG).1 = { data := [1, 2], err := none } ∧
+    readAtEntry (fetch (fun x : Bytes => x) (fun _ => hypBlock) hypLoc 1 [0] hypG).1 0 3 = ([1, 2], none) := by
+  refine ⟨fun _ h => h, by decide, rfl, by decide, by decide⟩
+
+theorem C03_shared_key_hypothesis_needed :
+    ∃ s : CS, Reach (FetchOutcome (fun x : Bytes => x) (fun _ => hypBlock) (fun _ => True)) s ∧
+      -- reader 1 asked for the key after the truncated entry was stored and got it without error
+      (1, hypLoc.take 32, ({ data := [1, 2], err := none } : Entry)) ∈ s.results ∧
+      ({ data := [1, 2], err := none } : Entry).data ≠ hypBlock := by
+  let k : Key := hypLoc.take 32
+  let e : Entry := { data := [1, 2], err := none }
+  refine ⟨apply (apply (apply CS.init (.lookup 0 k)) (.fetchDone (k, 0) e)) (.lookup 1 k), ?_, ?_, by decide⟩
+  · refine .step _ _ (.step _ _ (.step _ _ .init trivial) ?_) trivial
+    exact ⟨hypLoc, 1, [0], hypG, trivial, rfl, by decide⟩
+  · decide
+
 /-! ## Non-vacuity -/
 
 /-- `NoColl` is satisfiable by a non-trivial instance (an injective hash). -/
